@@ -160,6 +160,10 @@ func (tl *store) Resolve(id did.DID, resolveMetadata *resolver.ResolveMetadata) 
 				// We're trying to resolve the latest, it should not return an older (active) version when deactivated
 				return resolver.ErrDeactivated
 			}
+			if metadata.Deactivated && deactivatedAtResolveTime(metadata, resolveMetadata) {
+				// The document was already deactivated at the requested time, it should not return an older (active) version
+				return resolver.ErrDeactivated
+			}
 			if matches(metadata, resolveMetadata) {
 				mdTmp := metadata.asVDRMetadata()
 				returnMetadata = &mdTmp
@@ -330,6 +334,16 @@ func matches(metadata documentMetadata, resolveMetadata *resolver.ResolveMetadat
 	}
 
 	return true
+}
+
+// deactivatedAtResolveTime returns true when only a ResolveTime is given (deactivated documents not allowed)
+// and the given (deactivated) version was already in effect at that time.
+func deactivatedAtResolveTime(metadata documentMetadata, resolveMetadata *resolver.ResolveMetadata) bool {
+	if resolveMetadata == nil || resolveMetadata.AllowDeactivated || resolveMetadata.ResolveTime == nil ||
+		resolveMetadata.Hash != nil || resolveMetadata.SourceTransaction != nil {
+		return false
+	}
+	return !metadata.Updated.After(*resolveMetadata.ResolveTime) && !metadata.Created.After(*resolveMetadata.ResolveTime)
 }
 
 // latestNonDeactivatedRequested is a combination of checks on the resolveMetadata when a deactivated document is resolved
